@@ -269,18 +269,20 @@ impl<'a> Compiler<'a> {
     fn scope_end(&mut self) {
         *self.scope_depth_mut() -= 1;
         let scope_depth = self.scope_depth();
-        let locals = &mut self.locals[self.function_id];
-        while locals
+        while self.locals[self.function_id]
             .last()
             .map(|l| l.depth > scope_depth)
             .unwrap_or(false)
         {
-            let var = locals.pop().unwrap();
-            if var.captured {
-                self.program.bytecode.push(Instruction::CloseUpvalue as u8);
+            let var = self.locals[self.function_id].pop().unwrap();
+            // through push_instruction: the budget can run out on these instructions (and
+            // CloseUpvalue can fail), they need a place in the trace like every other one
+            let instruction = if var.captured {
+                Instruction::CloseUpvalue
             } else {
-                self.program.bytecode.push(Instruction::Pop as u8);
-            }
+                Instruction::Pop
+            };
+            self.push_instruction(instruction);
         }
     }
 
